@@ -65,7 +65,9 @@ def check(case):
             return discard("crash:" + crash.bucket)
         try:
             docs[t] = oracle.read_canon(text, inst_prop)
-        except oracle.shexc.ShExCError:
+        except oracle.shexc.ShExCError as e:
+            if docs:
+                return violation("output at threshold %r does not parse as ShExC (%s) while lower thresholds do\n%s" % (t, e, text[:1500]), (), True)
             return discard("unparsable-output")
         texts[t] = text
         if "__dup_labels__" in docs[t]:
